@@ -97,11 +97,13 @@ def run(ctx):
     for _, _, cc in corrs:   # keep replays small: hex payloads are not needed to re-run a case script
         pass
     K.decide_standard(ctx, corrs, FINDINGS)
+    covered = S.impl_reported(ctx, spec_violated)
     K.report_mismatch(ctx, spec_violated)
     # Spec oracle over every implementation reply (independent of the model)
     bad = spec_scan(c.ops, c.impl) if not c.err else []
     mism = set(c.mismatch)
-    unflagged = [h for h in S.relevant_hits(bad, c.flags, K.known_ids("C03"), CLASSES, -1) if h[0] not in mism]
+    unflagged = [h for h in S.relevant_hits(bad, c.flags, K.known_ids("C03"), CLASSES, -1)
+                 if not (covered and h[0] in mism)]
     if unflagged:
         i, why, _ = unflagged[0]
         rep = K.case_replay(c, K.case_of(c, i), upto=i)
